@@ -18,7 +18,7 @@ func init() {
 		Title: "WellFormed decides exactly the documented rules and String agrees with it",
 		Level: "exploration",
 		Rule: "full product: PUBLISH over topic {empty,non-empty} x topic alias {0,1,65535} x QoS 0..3 x packet id {0,1,65535} x DUP x RETAIN x all 2^6 presence combinations of the remaining fields; " +
-			"SUBSCRIBE over filter count 0..3 x subscription id {absent,0,1,268435455,268435456,max int32} x per filter (filter {empty,non-empty} x ALL 256 option bytes) for lists of <=2 filters and a 12-value option alphabet for the third; TopicFilter.WellFormed over the same per-filter space; " +
+			"SUBSCRIBE over filter count 0..3 x subscription id {absent,0,1,268435455,268435456,2^31-1,2^32,2^32+5,2^62+1} x per filter (filter {empty,non-empty} x ALL 256 option bytes) for lists of <=2 filters and a 12-value option alphabet for the third; TopicFilter.WellFormed over the same per-filter space; " +
 			"every packet as built through the API and, where the wire can carry it, as decoded from its own frame. Oracle: the three predicates transcribed from the property statement; WellFormed()!=nil <=> predicate; String() contains 'malformed!' <=> WellFormed()!=nil. distinct_nontrivial = distinct input tuples.",
 		Assumptions: []string{"field contents are fixed representatives; the rules depend only on emptiness, zero-ness and the option/QoS bits"},
 		Run:         runC17,
@@ -212,7 +212,7 @@ func c17Filter(f filtIn) *core.Finding {
 	return nil
 }
 
-var subIDs17 = []int{-1, 0, 1, 268435455, 268435456, 1<<31 - 1}
+var subIDs17 = []int{-1, 0, 1, 268435455, 268435456, 1<<31 - 1, 1 << 32, 1<<32 + 5, 1<<62 + 1}
 var optAlpha12 = []byte{0, 1, 2, 3, 4, 8, 0x10, 0x20, 0x30, 0x40, 0x80, 0xff}
 
 func runC17(x *core.Ctx) {
@@ -290,7 +290,7 @@ func runC17(x *core.Ctx) {
 				return
 			}
 			doSub(subIn{sid, []filtIn{a}})
-			if sid != -1 && sid != 268435456 && !x.Thorough() {
+			if sid != -1 && sid != 268435456 && sid != 1<<32+5 && !x.Thorough() {
 				// quick: pairs only for two subscription-id values
 				continue
 			}
